@@ -448,6 +448,32 @@ def flow_level_cases(seed):
             if not torch.allclose(pos.running_mean, expect[k][0], atol=1e-5) or not torch.allclose(pos.running_var, expect[k][1], atol=1e-5):
                 fails.append({"layer": "BatchNorm", "clause": "flow_level_momentum_rule", "flow": name, "history": [["flow", name]], "seed": seed, "variant": "flow-level", "detail": "%s: after two training passes batch-norm position %d of %d holds running mean %s / variance %s, the momentum blend of the statistics of its own inputs is %s / %s" % (name, k + 1, len(positions), [round(float(v), 4) for v in pos.running_mean], [round(float(v), 4) for v in pos.running_var], [round(float(v), 4) for v in expect[k][0]], [round(float(v), 4) for v in expect[k][1]])})
                 break
+        # a layer's mode changes only through train() / eval() (BatchNormLife: Train / Eval are the only actions that
+        # write `training`): batch-norm positions frozen with .eval() inside a flow that is being trained stay frozen
+        # across sampling and density calls, and their statistics stay what they were
+        torch.manual_seed(seed + 3)
+        flow = build()
+        positions = [t for t in flow._transform._transforms if isinstance(t, BatchNorm)]
+        with torch.no_grad():
+            flow.train()
+            flow.log_prob(torch.randn(64, D, generator=g) * 1.5 + 0.7)
+            for p_ in positions:
+                p_.eval()
+            before = [(p_.running_mean.clone(), p_.running_var.clone()) for p_ in positions]
+            n += 1
+            for call, fn in (("sample", lambda: flow.sample(5)), ("sample_and_log_prob", lambda: flow.sample_and_log_prob(5)), ("transform_to_noise", lambda: flow.transform_to_noise(torch.randn(16, D, generator=g))), ("log_prob", lambda: flow.log_prob(torch.randn(16, D, generator=g) * 2.0 - 0.4))):
+                try:
+                    fn()
+                except Exception as e:  # noqa
+                    fails.append({"layer": "BatchNorm", "clause": "call_raises", "flow": name, "history": [["flow", name], ["frozen", call]], "seed": seed, "variant": "flow-level", "detail": "%s: %s on a training-mode flow whose batch-norm layers are in evaluation mode raised %r" % (name, call, e)})
+                    break
+                bad = [k for k, p_ in enumerate(positions) if p_.training]
+                if bad or not flow.training:
+                    fails.append({"layer": "BatchNorm", "clause": "mode", "flow": name, "history": [["flow", name], ["frozen", call]], "seed": seed, "variant": "flow-level", "detail": "%s: %s switched the mode of %s (flow.training=%s); only train() / eval() change a mode" % (name, call, "batch-norm positions %s back to training" % bad if bad else "the flow", flow.training)})
+                    break
+                if any(not torch.equal(p_.running_mean, b[0]) or not torch.equal(p_.running_var, b[1]) for p_, b in zip(positions, before)):
+                    fails.append({"layer": "BatchNorm", "clause": "frozen_statistics_written", "flow": name, "history": [["flow", name], ["frozen", call]], "seed": seed, "variant": "flow-level", "detail": "%s: %s updated the running statistics of a batch-norm layer that is in evaluation mode" % (name, call)})
+                    break
     return n, fails
 
 
